@@ -148,17 +148,60 @@ Theorem C13_channel_nothing_lost :
 Proof. exact relay_nothing_lost. Qed.
 Print Assumptions C13_channel_nothing_lost.
 
-(* dial() refused at once (NoAddressAvailable, TriedToDialSelf, TaskClosed, ...): the request
-   gets its single RequestFailed(Rejected(DialFailed(Some(_)))) in the same step and is queued
-   nowhere. *)
+(* dial() refused at once, for EVERY refusal: dres is the result of TransportService::dial, an
+   arbitrary choice of the environment; every code other than the two Ok flavours (D_OK, D_INPROGRESS)
+   — TriedToDialSelf, AlreadyConnected, NoAddressAvailable, TaskClosed, ChannelClogged,
+   PeerIdMissing, or anything else — gives the request its single
+   RequestFailed(Rejected(DialFailed(Some(variant)))) in the same step, and the request is parked
+   nowhere (not behind a dial, not active at a peer, no substream being opened, no future). *)
 Theorem C13_dial_refused_one_failure :
-  forall (s : pst) (p len tag : N) fb (ok : bool) (sid : N),
-    memN p (peers s) = false ->
-    snd (h_send s p true len tag fb ok false sid) = [OSent (next_rid s); OFail (next_rid s) E_DIAL_IMMEDIATE] /\
-    dials (fst (h_send s p true len tag fb ok false sid)) = dials s /\
-    active (fst (h_send s p true len tag fb ok false sid)) = active s.
+  forall (s : pst) (p len tag : N) fb (ok : bool) (dres sid : N),
+    memN p (peers s) = false -> dial_accepted dres = false ->
+    let r := h_send s p true len tag fb ok dres sid in
+    snd r = [OSent (next_rid s); OFail (next_rid s) (E_DIAL_IMM dres)] /\
+    dials (fst r) = dials s /\ active (fst r) = active s /\ pouts (fst r) = pouts s /\ futs (fst r) = futs s.
 Proof. exact dial_refused_one_failure. Qed.
 Print Assumptions C13_dial_refused_one_failure.
+
+(* The same for a step of the whole system, whatever the environment is at that moment (the
+   manager's belief about the peer — it may lag behind or run ahead of what the protocol was told —,
+   a clogged or closed command channel, the local peer id): send_request with DialOptions::Dial to
+   a peer the protocol does not know EITHER parks the request behind a dial the environment
+   accepted (ghost call ODial: the environment now owes ConnectionEstablished or DialFailure) OR
+   fails it at once with the dial error and parks it nowhere. *)
+Theorem C13_send_dial_step :
+  forall (cf : cfg) (s : pst) (en : env) (p len tag : N) fb,
+    memN p (peers s) = false ->
+    let r := step cf (s, en) (ESend p true len tag fb) in
+    let rid := next_rid s in
+    (dial_accepted (dial_res cf en p) = true /\ snd (fst r) = [OSent rid; ODial p] /\
+     dials (fst (fst (fst r))) = dials s ++ [(p, mkReq rid len tag fb)]) \/
+    (dial_accepted (dial_res cf en p) = false /\
+     snd (fst r) = [OSent rid; OFail rid (E_DIAL_IMM (dial_res cf en p))] /\
+     dials (fst (fst (fst r))) = dials s /\ active (fst (fst (fst r))) = active s /\
+     pouts (fst (fst (fst r))) = pouts s /\ futs (fst (fst (fst r))) = futs s).
+Proof. exact send_dial_step. Qed.
+Print Assumptions C13_send_dial_step.
+
+(* The environment's answer to dial(), in the order of the checks of TransportManagerHandle::dial:
+   own peer id; unknown peer or empty address store; connected; a dial in progress (Dialing, Opening,
+   Disconnected with a dial record); else the command goes to the manager — TaskClosed when the
+   manager is gone, ChannelClogged when its command channel is full, Ok otherwise. *)
+Theorem C13_dial_res_cases :
+  forall (cf : cfg) (en : env) (p : N),
+    let r := dial_res cf en p in
+    (r = D_SELF /\ selfp cf && (p =? SELF_PEER) = true) \/
+    (selfp cf && (p =? SELF_PEER) = false /\
+     ((r = D_NOADDR /\ (mview cf en p = 0 \/ mview cf en p = 4)) \/
+      (r = D_CONNECTED /\ mview cf en p = 2) \/
+      (r = D_INPROGRESS /\ (mview cf en p = 3 \/ mview cf en p = 5 \/ mview cf en p = 6)) \/
+      (mview cf en p <> 0 /\ mview cf en p <> 2 /\ mview cf en p <> 3 /\ mview cf en p <> 4 /\
+       mview cf en p <> 5 /\ mview cf en p <> 6 /\
+       ((r = D_TASKCLOSED /\ mgr en = false) \/
+        (r = D_CLOGGED /\ mgr en = true /\ a_clog (aux_of en) = true) \/
+        (r = D_OK /\ mgr en = true /\ a_clog (aux_of en) = false))))).
+Proof. exact dial_res_cases. Qed.
+Print Assumptions C13_dial_res_cases.
 
 (* F-C13a on the unrepaired handler: two requests to peer 0 while it is being dialed, then the
    connection is established. Request 0 was handed out, is owed nowhere, was never answered and
